@@ -68,7 +68,33 @@ def generated(rng, policy):
             w.close()
             raise RuntimeError('netgen op refused: %r' % (op,))
     decorate(w, ops, rng)
+    refused_adds(w, ops, rng)
     return w, ops
+
+
+def refused_adds(w, ops, rng, n=3):
+    """history before the queries: attempts to create an element whose name a sibling already carries but whose
+    EDIF identifier is new. The attempt is refused and must leave no trace: an exact query for that identifier
+    finds nothing. (The refused ops stay in the recipe - they allocate objects, so the indices of a replay agree.)
+    The identifiers tried are remembered in w.extra_patterns."""
+    import spydrnet as sdn
+    w.extra_patterns = getattr(w, 'extra_patterns', [])
+    defs = [i for i, o in enumerate(w.objs) if isinstance(o, sdn.ir.Definition)]
+    rng.shuffle(defs)
+    done = 0
+    for d in defs:
+        o = w.objs[d]
+        for rel, group in (('ports', o.ports), ('cables', o.cables), ('children', o.children)):
+            named = [e for e in group if isinstance(e.name, str) and e.name]
+            if not named or done >= n:
+                continue
+            idn = 'zq%d' % (len(w.extra_patterns))
+            op = ['create', rel, str(d), tok_of_s(rng.choice(named).name), '1', tok_of_s('EDIF.identifier'), 's:' + tok_of_s(idn), '0', '~']
+            out = w.apply(op)
+            ops.append(op)
+            if out != 'ok':
+                w.extra_patterns.append(idn)
+                done += 1
 
 
 def _mk(b):
